@@ -2,7 +2,10 @@ package main
 
 // c19_race.go — THOROUGH tier only: the same hammer built with `-race`, run as a child; every
 // `WARNING: DATA RACE` block is canonicalised to the pair of top-most /repo frames of its two
-// accesses (function names, no line numbers) and reported as `c19/data-race/<funcA>~<funcB>`.
+// accesses (function names, no line numbers) and reported as `c19/data-race/<root>/<funcA>~<funcB>`,
+// where <root> is the shared variable of the fact table accessed at the source line of either top frame
+// (positions from the scan of c19_scan.go); tree-node races inside store.CBlock count for the unconfirmed
+// tree; anything else is `other`.  known_findings entries name the root (prefix match), the pair is detail.
 
 import (
 	"fmt"
@@ -120,6 +123,7 @@ func c19ParseRaces(text, repo string) map[string]*c19RacePair {
 		var tops []string
 		var kinds []string
 		var vias []string
+		var roots []string
 		i := 0
 		for i < len(lines) && len(tops) < 2 {
 			l := lines[i]
@@ -135,6 +139,7 @@ func c19ParseRaces(text, repo string) map[string]*c19RacePair {
 			i++
 			top := ""
 			bottom := ""
+			root := ""
 			for i+1 < len(lines) && strings.HasPrefix(lines[i], "  ") {
 				m := c19FrameRe.FindStringSubmatch(lines[i])
 				file := strings.TrimSpace(lines[i+1])
@@ -146,6 +151,17 @@ func c19ParseRaces(text, repo string) map[string]*c19RacePair {
 					}
 					fn = strings.NewReplacer("(*", "", ")", "").Replace(fn)
 					top = fn
+					// file:line of the access -> shared variable of the fact table
+					loc := file
+					if j := strings.Index(loc, " "); j >= 0 {
+						loc = loc[:j]
+					}
+					if rel, err := filepath.Rel(repo, loc); err == nil && c19LastScan != nil {
+						root = c19LastScan.accessAt[rel]
+					}
+					if root == "" && strings.HasPrefix(fn, "store.CBlock.") {
+						root = "ChainDatabase.UnConfirmBlocks"
+					}
 				}
 				if m != nil && (strings.HasPrefix(file, repo+"/") || strings.Contains(m[1], "LemoFoundationLtd/lemochain-core/")) {
 					fn := m[1]
@@ -157,6 +173,7 @@ func c19ParseRaces(text, repo string) map[string]*c19RacePair {
 				i += 2
 			}
 			vias = append(vias, bottom)
+			roots = append(roots, root)
 			if top == "" {
 				top = "<outside-repo>"
 			}
@@ -170,7 +187,14 @@ func c19ParseRaces(text, repo string) map[string]*c19RacePair {
 		if bb < a {
 			a, bb = bb, a
 		}
-		key := a + "~" + bb
+		root := roots[0]
+		if root == "" {
+			root = roots[1]
+		}
+		if root == "" {
+			root = "other"
+		}
+		key := root + "/" + a + "~" + bb
 		p := out[key]
 		if p == nil {
 			blk := "WARNING: DATA RACE" + b
